@@ -5,6 +5,7 @@ CONSTANTS
   MaxW = 8
   FreshOnly = FALSE
   Ops = {"mset", "mget"}
+  AutoSimp = FALSE
   MapSpan = 4
   MapSrc = {1}
   Rand = FALSE
